@@ -34,6 +34,8 @@ func TestVerifDriver(t *testing.T) {
 		runC10(em, r)
 	case "C11":
 		runC11(em, r)
+	case "C16":
+		runC16(em, r)
 	default:
 		t.Fatalf("unknown property %s", prop)
 	}
